@@ -200,8 +200,9 @@ func alphabet(nSeq int) []Op {
 		}
 	}
 	for s := 0; s < nSeq; s++ {
-		// (keep+discard, len, -discard) as ShiftCacheSlot calls it, open and closed ranges
-		for _, p := range [][3]int{{2, -1, -1}, {2, 4, -1}, {1, 3, -1}, {3, -1, -2}} {
+		// (keep+discard, len, -discard) as ShiftCacheSlot calls it, open and closed ranges; (0,2,-1) is the one
+		// shape that pushes a position below 0 (llama.cpp then frees the cell for ALL its sequences)
+		for _, p := range [][3]int{{2, -1, -1}, {2, 4, -1}, {1, 3, -1}, {3, -1, -2}, {0, 2, -1}} {
 			ops = append(ops, Op{K: "add", A: s, B: p[0], C: p[1], D: p[2]})
 		}
 	}
@@ -559,111 +560,115 @@ func search(r *evid.Run, modelPath string, cfg Config, workers int) map[string]a
 	r.Distinct("state", cfg.Name+"|"+init0.key)
 	frontier := []node{{nil, init0.key}}
 	perDepth := []map[string]int{}
-	var transitions, changedTr, knownCnt int64
+	var transitions, changedTr, knownCnt, defragPending int64
 	completed := 0
-	for depth := 0; depth < cfg.Depth && len(frontier) > 0; depth++ {
-		if r.Expired() {
-			r.NotExhaustive(fmt.Sprintf("[%s] time budget used up: all operation sequences up to length %d were compared, length %d not started", cfg.Name, depth, depth+1))
-			break
-		}
-		res := make([][]succ, len(frontier))
-		var wg sync.WaitGroup
-		var mu sync.Mutex
-		nextJob := 0
-		aborted := false
-		for w := 0; w < workers; w++ {
-			wg.Add(1)
-			go func(p *pair) {
-				defer wg.Done()
-				for {
-					mu.Lock()
-					j := nextJob
-					nextJob++
-					stop := aborted
-					mu.Unlock()
-					if j >= len(frontier) || stop {
-						return
-					}
-					if j%64 == 0 && r.Expired() {
+	const chunkSize = 2048 // frontier nodes expanded in parallel before their results are merged (bounds memory)
+	stopped := false
+	for depth := 0; depth < cfg.Depth && len(frontier) > 0 && !stopped; depth++ {
+		last := depth == cfg.Depth-1
+		var next []node
+		newStates := 0
+		for c0 := 0; c0 < len(frontier); c0 += chunkSize {
+			chunk := frontier[c0:min(c0+chunkSize, len(frontier))]
+			if r.Expired() {
+				r.NotExhaustive(fmt.Sprintf("[%s] time budget used up inside length %d (%d of %d states of the previous level expanded): all operation sequences up to length %d were compared", cfg.Name, depth+1, c0, len(frontier), depth))
+				stopped = true
+				break
+			}
+			res := make([][]succ, len(chunk))
+			var wg sync.WaitGroup
+			var mu sync.Mutex
+			nextJob := 0
+			for w := 0; w < workers; w++ {
+				wg.Add(1)
+				go func(p *pair) {
+					defer wg.Done()
+					for {
 						mu.Lock()
-						aborted = true
+						j := nextJob
+						nextJob++
 						mu.Unlock()
-						return
-					}
-					nd := frontier[j]
-					out := make([]succ, len(ops))
-					for oi, op := range ops {
-						s := p.runTrace(nd.path, nd.key, op)
-						if len(s.diffs) > 0 || s.replayKO != "" {
-							// confirm: the same trace must give the same verdict 4 more times
-							for k := 0; k < 4; k++ {
-								s2 := p.runTrace(nd.path, nd.key, op)
-								if fmt.Sprint(s2.diffs) != fmt.Sprint(s.diffs) || s2.replayKO != s.replayKO {
-									s.replayKO = fmt.Sprintf("verdict not reproducible: run 1 {%v %s}, run %d {%v %s}", s.diffs, s.replayKO, k+2, s2.diffs, s2.replayKO)
-									break
+						if j >= len(chunk) {
+							return
+						}
+						nd := chunk[j]
+						out := make([]succ, len(ops))
+						for oi, op := range ops {
+							s := p.runTrace(nd.path, nd.key, op)
+							if len(s.diffs) > 0 || s.replayKO != "" {
+								// confirm: the same trace must give the same verdict 4 more times
+								for k := 0; k < 4; k++ {
+									s2 := p.runTrace(nd.path, nd.key, op)
+									if fmt.Sprint(s2.diffs) != fmt.Sprint(s.diffs) || s2.replayKO != s.replayKO {
+										s.replayKO = fmt.Sprintf("verdict not reproducible: run 1 {%v %s}, run %d {%v %s}", s.diffs, s.replayKO, k+2, s2.diffs, s2.replayKO)
+										break
+									}
 								}
 							}
+							out[oi] = s
 						}
-						out[oi] = s
+						res[j] = out
 					}
-					res[j] = out
-				}
-			}(pairs[w])
-		}
-		wg.Wait()
-		if aborted {
-			r.NotExhaustive(fmt.Sprintf("[%s] time budget used up inside length %d: all operation sequences up to length %d were compared", cfg.Name, depth+1, depth))
-			break
-		}
-		// merge in frontier order / alphabet order: representatives do not depend on scheduling
-		var next []node
-		for j, nd := range frontier {
-			for oi, op := range ops {
-				s := res[j][oi]
-				transitions++
-				r.Eval()
-				full := append(append([]Op{}, nd.path...), op)
-				if r.WantSample() {
-					r.Sample(map[string]any{"config": cfg.Name, "ops": opsString(full), "cells_real_and_model": s.dump})
-				} else {
-					r.Sample(nil)
-				}
-				if s.replayKO != "" {
-					r.Violation("C07/conformance/replay/not-reproducible", fmt.Sprintf("[%s] %s: %s", cfg.Name, opsString(full), s.replayKO), replayCase{cfg, full})
-					continue
-				}
-				bad := false
-				for _, d := range s.diffs {
-					if kd := knownDifference(cfg, nd.path, op, d); kd != "" {
-						knownCnt++
-						r.Add("known_difference_"+kd, 1)
-						bad = true
+				}(pairs[w])
+			}
+			wg.Wait()
+			// merge in frontier order / alphabet order: representatives do not depend on scheduling
+			for j, nd := range chunk {
+				for oi, op := range ops {
+					s := res[j][oi]
+					transitions++
+					r.Eval()
+					full := append(append(make([]Op, 0, len(nd.path)+1), nd.path...), op)
+					if r.WantSample() {
+						r.Sample(map[string]any{"config": cfg.Name, "ops": opsString(full), "cells_real_and_model": s.dump})
+					} else {
+						r.Sample(nil)
+					}
+					if s.replayKO != "" {
+						r.Violation("C07/conformance/replay/not-reproducible", fmt.Sprintf("[%s] %s: %s", cfg.Name, opsString(full), s.replayKO), replayCase{cfg, full})
 						continue
 					}
-					bad = true
-					r.Violation(sigOf(op, d.What), fmt.Sprintf("[%s, %d cells] after %s: %s", cfg.Name, pairs[0].size, opsString(full), d.Msg), replayCase{cfg, full})
+					bad := false
+					for _, d := range s.diffs {
+						bad = true
+						if kd := knownDifference(cfg, nd.path, op, d); kd != "" {
+							knownCnt++
+							r.Add("known_difference_"+kd, 1)
+							continue
+						}
+						r.Violation(sigOf(op, d.What), fmt.Sprintf("[%s, %d cells] after %s: %s", cfg.Name, pairs[0].size, opsString(full), d.Msg), replayCase{cfg, full})
+					}
+					if bad {
+						continue // the two sides are in different states: nothing to expand
+					}
+					if s.changed {
+						changedTr++
+					}
+					if _, ok := seen[s.key]; ok {
+						continue
+					}
+					seen[s.key] = struct{}{}
+					canonSeen[s.dump] = struct{}{}
+					newStates++
+					r.Distinct("state", cfg.Name+"|"+s.key)
+					r.Distinct("canonical_state", s.dump)
+					if sharedCell(s.dump) {
+						r.Distinct("nontrivial", s.dump)
+					}
+					if strings.Contains(s.key, "defrag-pending") {
+						defragPending++
+					}
+					if !last {
+						next = append(next, node{full, s.key})
+					}
 				}
-				if bad {
-					continue
-				}
-				if s.changed {
-					changedTr++
-				}
-				if _, ok := seen[s.key]; ok {
-					continue
-				}
-				seen[s.key] = struct{}{}
-				canonSeen[s.dump] = struct{}{}
-				r.Distinct("state", cfg.Name+"|"+s.key)
-				r.Distinct("canonical_state", s.dump)
-				if sharedCell(s.dump) {
-					r.Distinct("nontrivial", s.dump)
-				}
-				next = append(next, node{full, s.key})
 			}
 		}
+		if stopped {
+			break
+		}
 		completed = depth + 1
-		perDepth = append(perDepth, map[string]int{"length": depth + 1, "sequences_from": len(frontier), "new_states": len(next)})
+		perDepth = append(perDepth, map[string]int{"length": depth + 1, "expanded_states": len(frontier), "new_states": newStates})
 		frontier = next
 	}
 	var nOps, nFull, nMoved int64
@@ -680,7 +685,7 @@ func search(r *evid.Run, modelPath string, cfg Config, workers int) map[string]a
 	return map[string]any{
 		"config": cfg, "alphabet": len(ops), "real_cells": pairs[0].size, "workers": workers,
 		"completed_length": completed, "states_layout": len(seen), "states_canonical": len(canonSeen),
-		"transitions": transitions, "transitions_changing_state": changedTr, "known_difference_hits": knownCnt,
+		"transitions": transitions, "transitions_changing_state": changedTr, "known_difference_hits": knownCnt, "states_with_pending_defrag_flag": defragPending,
 		"per_length": perDepth, "ops_executed_on_impl": nOps, "decodes_refused_kv_full_on_both_sides": nFull, "decodes_that_defragmented_the_real_cache": nMoved, "wall_s": math.Round(time.Since(t0).Seconds()*10) / 10,
 	}
 }
@@ -889,7 +894,7 @@ func main() {
 
 	r.Rule("explicit-state search of the product (real llama.cpp KV cache via cgo, fakellama model): from the initial state of each configuration " +
 		"ALL sequences over the alphabet {Decode(s,k in 1..2) at the sequence's next position, KvCacheSeqRm(s,(0,-1)|(1,-1)|(1,2)|(2,4)|(0,1)), " +
-		"KvCacheSeqCp(a,b,0,-1|1|2), KvCacheSeqAdd(s,(2,-1,-1)|(2,4,-1)|(1,3,-1)|(3,-1,-2))} up to the configured length are executed, " +
+		"KvCacheSeqCp(a,b,0,-1|1|2), KvCacheSeqAdd(s,(2,-1,-1)|(2,4,-1)|(1,3,-1)|(3,-1,-2)|(0,2,-1))} up to the configured length are executed, " +
 		"breadth first; a sequence is reached by replaying it from the initial state on a re-used context; states are deduplicated on the real " +
 		"cache's physical cell layout + head + pending-defrag flag; after every operation SeqRm's result, Decode's ErrKvCacheFull and the complete " +
 		"multiset of (pos, sequence ids) of the non-empty cells are compared. Non-trivial states: a cell is shared by more than one sequence.")
